@@ -89,8 +89,7 @@ APPENDED = ("llen(advancing_heads) == old(llen(advancing_heads)) + 1 and item(ad
 NOT_APPENDED = "llen(advancing_heads) == old(llen(advancing_heads)) and " + KEPT
 SAME = "(llen(cmp) == 1 and item(cmp, 0) is True)"
 CATCH = "old(llen(head.catch_pattern_failure_label) > 0)"
-REDIR_HDR = ("if isinstance(winning_event, ActionEvent) and winning_event.action_uid and isinstance(competing_event, ActionEvent) and "
-             "competing_event.action_uid and (competing_event.action_uid != winning_event.action_uid)")
+REDIR_HDR = "if isinstance(winning_event, ActionEvent) and ..."     # (prefix key: a change of the condition is judged by the contract)
 
 EVENT = ["is_inst(EV, 'Event')", "implies(is_inst(EV, 'ActionEvent'), has(EV, 'action_uid') and (is_none(EV.action_uid) or is_str(EV.action_uid)))"]
 
@@ -204,4 +203,163 @@ contract(
              "all(item(advancing_heads, j) is old(item(advancing_heads, j)) for j in range(old(llen(advancing_heads))))"],
     raises={"EvalError": "True"},
     raises_ensures=["llen(generated) == 1 and item(generated, 0) is picked_head", "llen(aborted) == 0"],
+)
+
+# ---------------------------------------------------------------------------------------------------------------------------
+# GROUP: the heads are partitioned by the interaction loop of their flow ("flows in different interaction loops never compete")
+# ---------------------------------------------------------------------------------------------------------------------------
+def LOOP_OF(h):
+    return "val(state.flow_states, %s.flow_state_uid).loop_id" % h
+
+
+HEADS_OK = ("all(is_obj(h) and has(h, 'flow_state_uid') and has(state.flow_states, h.flow_state_uid) and "
+            "    is_obj(val(state.flow_states, h.flow_state_uid)) and has(val(state.flow_states, h.flow_state_uid), 'loop_id') and "
+            "    is_str(%s) and %s != '' for h in actionable_heads)" % (LOOP_OF("h"), LOOP_OF("h")))
+G_LISTS = "all(is_list(val(head_groups, g)) and fresh(val(head_groups, g)) and val(head_groups, g) is not head_groups for g in keys(head_groups))"
+G_DISTINCT = ("all(all(implies(g1 is not g2, val(head_groups, g1) is not val(head_groups, g2)) for g2 in keys(head_groups)) for g1 in keys(head_groups))")
+# every member of a group belongs to the group's loop and is one of the heads handed in
+G_MEMBERS = ("all(all(%s == g and any(m is item(actionable_heads, i) for i in range(%%s)) for m in val(head_groups, g)) for g in keys(head_groups))"
+             % LOOP_OF("m"))
+# every head handed in (so far) is in the group of its loop
+G_COVER = ("all(has(head_groups, %s) and any(m is item(actionable_heads, i) for m in val(head_groups, %s)) for i in range(%%s))"
+           % (LOOP_OF("item(actionable_heads, i)"), LOOP_OF("item(actionable_heads, i)")))
+
+contract(
+    SM, "_resolve_action_conflicts", prop="C05",
+    block=("head_groups: Dict[str, List[FlowHead]] = {}", "for head in actionable_heads"),
+    vars={"state": "V", "actionable_heads": "V", "head_groups": "V"},
+    requires=["is_obj(state)", "has(state, 'flow_states')", "is_dict(state.flow_states)", "is_list(actionable_heads)", HEADS_OK],
+    ensures=["is_dict(head_groups)", G_LISTS, G_DISTINCT, G_MEMBERS % "llen(actionable_heads)", G_COVER % "llen(actionable_heads)",
+             "unchanged(actionable_heads)"],
+    raises={},
+    loops={"for head in actionable_heads": dict(
+        modifies=["head_groups"],
+        inv=["is_dict(head_groups)", "fresh(head_groups)", G_LISTS, G_DISTINCT, G_MEMBERS % "_k", G_COVER % "_k"])},
+)
+
+# ---------------------------------------------------------------------------------------------------------------------------
+# SELECT: the winner of a group is one whose (1.0-padded) score chain is lexicographically largest
+# ---------------------------------------------------------------------------------------------------------------------------
+axioms("list_eq")
+
+
+def PAD(h, k):
+    """contract text: the k-th matching score of head h, the chain continued with 1.0 (language reference, "Flow Conflict Resolution
+    Prioritization")"""
+    return "(num(item(%s.matching_scores, %s)) if %s < llen(%s.matching_scores) else 1.0)" % (h, k, k, h)
+
+
+def PAD_EQ(a, b, m):
+    return "%s == %s" % (PAD(a, m), PAD(b, m))
+
+
+@spec(opaque=True, heap=True, axioms=[
+    # ghost: the FIRST position at which the padded chains of two heads differ, -1 if they agree everywhere (such a position exists for
+    # any two chains: the naturals are well-ordered; the axioms only name it)
+    "fd(a, b) >= -1",
+    "all(%s for m in range(fd(a, b)))" % PAD_EQ("a", "b", "m"),
+    "implies(fd(a, b) >= 0, %s != %s)" % (PAD("a", "fd(a, b)"), PAD("b", "fd(a, b)")),
+    "implies(fd(a, b) == -1, all(%s for m in ints() if m >= 0))" % PAD_EQ("a", "b", "m"),
+])
+def fd(a: V, b: V) -> int:
+    """first difference of the padded score chains"""
+
+
+def KEY_LT(a, b):
+    """contract text: a's padded chain is lexicographically smaller than b's: at the first position where they differ a's score is smaller"""
+    return "(fd(%s, %s) >= 0 and %s < %s)" % (a, b, PAD(a, "fd(%s, %s)" % (a, b)), PAD(b, "fd(%s, %s)" % (a, b)))
+
+
+# the sort key (the real lambda of `sorted(group, key=lambda head: ...)`): the chain padded with 1.0 to the common length
+contract(
+    SM, "_resolve_action_conflicts.<lambda>", prop="C05", globals={"max_length": "i"},
+    requires=["is_obj(head)", "has(head, 'matching_scores')", "is_list(head.matching_scores)", "llen(head.matching_scores) <= max_length",
+              "all(is_float(x) or is_int(x) for x in head.matching_scores)"],
+    ensures=["is_list(result)", "fresh(result)", "llen(result) == max_length",
+             "all(num(item(result, k)) == %s for k in range(max_length))" % PAD("head", "k")],
+    raises={}, assigns=[], allocates=True,
+)
+
+@spec(opaque=True, heap=False)
+def perm(r: V, i: int) -> int:
+    """ghost: the position in the sorted ARGUMENT of the i-th item of the sorted result r"""
+
+
+@spec(opaque=True, heap=False)
+def inv(r: V, j: int) -> int:
+    """ghost: the position in the sorted result r of the j-th item of the argument"""
+
+
+opaque("sorted", assigns=[], raises=[], kw_defaults={"reverse": False}, result_class="list",
+       ensures=["llen(result) == llen(arg0)",
+                # a permutation (ghost index maps perm / inv, inverse to each other)
+                "all(0 <= perm(result, i) and perm(result, i) < llen(arg0) and item(result, i) is item(arg0, perm(result, i)) and "
+                "    inv(result, perm(result, i)) == i for i in range(llen(result)))",
+                "all(0 <= inv(result, j) and inv(result, j) < llen(result) and item(arg0, j) is item(result, inv(result, j)) and "
+                "    perm(result, inv(result, j)) == j for j in range(llen(arg0)))",
+                "implies(kw_reverse, all(all(implies(i < j, not %s) for j in range(llen(result))) for i in range(llen(result))))"
+                % KEY_LT("item(result, i)", "item(result, j)"),
+                "implies(not kw_reverse, all(all(implies(i < j, not %s) for j in range(llen(result))) for i in range(llen(result))))"
+                % KEY_LT("item(result, j)", "item(result, i)")],
+       note="A-SORTED: sorted(xs, key=k, reverse=r) returns a new list, a permutation of xs, ordered by Python's comparison of the keys k(x) "
+            "(non-increasing when r); the key of a head is its 1.0-padded score chain of the common length (the lambda's VERIFIED contract), and "
+            "Python compares two float lists of equal length lexicographically (`key_lt`)")
+
+GROUP_OK = ("all(is_obj(h) and has(h, 'matching_scores') and is_list(h.matching_scores) and "
+            "    all(is_float(x) or is_int(x) for x in h.matching_scores) for h in group)")
+
+def CHAIN_EQ(a, b):
+    """contract text: the score chains of heads a and b are equal item by item"""
+    return ("(llen(%s.matching_scores) == llen(%s.matching_scores) and "
+            " all(num(item(%s.matching_scores, k)) == num(item(%s.matching_scores, k)) for k in range(llen(%s.matching_scores))))" % (a, b, a, b, a))
+
+
+HEADS_WF = ("all(is_obj(h) and has(h, 'matching_scores') and is_list(h.matching_scores) and "
+            "    all(is_float(x) or is_int(x) for x in h.matching_scores) for h in %s)")
+NEXT_STMT = "equal_heads_index = ..."
+
+# the tie: the heads in front of `equal_heads_index` all carry the chain of the first (best) one
+contract(
+    SM, "_resolve_action_conflicts", prop="C05", block=NEXT_STMT, summary=True,
+    vars={"ordered_heads": "V", "equal_heads_index": "V"},
+    requires=["is_list(ordered_heads)", "llen(ordered_heads) > 0", HEADS_WF % "ordered_heads"],
+    ensures=["is_int(equal_heads_index)", "1 <= equal_heads_index", "equal_heads_index <= llen(ordered_heads)",
+             "all(%s for i in range(equal_heads_index))" % CHAIN_EQ("item(ordered_heads, i)", "item(ordered_heads, 0)")],
+    raises={}, assigns=[],
+)
+
+# the tie-break: some head in front of `equal_heads_index`
+contract(
+    SM, "_resolve_action_conflicts", prop="C05", block="picked_head = ...", summary=True,
+    vars={"ordered_heads": "V", "equal_heads_index": "V", "picked_head": "V"},
+    requires=["is_list(ordered_heads)", "is_int(equal_heads_index)", "1 <= equal_heads_index", "equal_heads_index <= llen(ordered_heads)"],
+    ensures=["any(picked_head is item(ordered_heads, c) for c in range(equal_heads_index))"],
+    raises={}, assigns=[],
+)
+
+O_ = "ordered_heads"
+SELECT_VARS = {"group": "V", "picked_head": "V", "max_length": "V", "ordered_heads": "V", "equal_heads_index": "V"}
+
+contract(
+    SM, "_resolve_action_conflicts", prop="C05",
+    block=("max_length = ...", "picked_head = ..."),
+    vars=SELECT_VARS, chain_ensures=True,
+    requires=["is_list(group)", "llen(group) > 0", HEADS_WF % "group"],
+    ensures=[
+        # stepping stones (proved in this order, each may use the earlier ones)
+        "is_list(ordered_heads) and llen(ordered_heads) == llen(group) and is_int(equal_heads_index) and 1 <= equal_heads_index and "
+        "equal_heads_index <= llen(ordered_heads)",
+        "any(picked_head is item(ordered_heads, c) for c in range(equal_heads_index))",
+        "all(%s for i in range(equal_heads_index))" % CHAIN_EQ("item(ordered_heads, i)", "picked_head"),
+        "all(not %s for i in range(equal_heads_index))" % KEY_LT("picked_head", "item(ordered_heads, i)"),
+        "all(not %s for i in range(llen(ordered_heads)))" % KEY_LT("picked_head", "item(ordered_heads, i)"),
+        # the winner is a head of the group ...
+        "any(picked_head is h for h in group)",
+        # ... and no head of the group has a lexicographically larger padded chain
+        "all(not %s for h in group)" % KEY_LT("picked_head", "h"),
+        # the sort key pads to the length of the longest chain of the group
+        "all(llen(h.matching_scores) <= max_length for h in group)",
+        "unchanged(group)",
+    ],
+    raises={},
 )
